@@ -14,7 +14,7 @@ import (
 func init() {
 	register(&explore.Prop{
 		ID: "C06", Level: levelMC, Explorer: "E1 input-space enumerator + E2 path mode (visit histories)",
-		Rule: "STORED-S (<=3 docs x 8 stored configurations) in forms built / loaded-mem / loaded-file / merged by block copy / merged by re-encode (drops; differing field lists): every doc number plus {Count, Count+1, Count+127, Count+128, 2^32}, every early-stop index; STORED-B (130 docs in two blocks; length of doc 0 and doc 128 in 0..24, six record shapes for the last record of each block): every doc of interest and every sequence of <=3 visits over {0,127,128,129} on a freshly loaded segment (the decompressed block is cached, so a visit depends on earlier ones), also after merge; " +
+		Rule: "STORED-S (<=3 docs x 8 stored configurations) in forms built / loaded-mem / loaded-file / merged by block copy / merged by re-encode (drops; differing field lists): every doc number plus {Count, Count+1, Count+127, Count+128, 2^32}, every early-stop index; COPY-CROSS (two-segment block-copy merges whose merged count crosses a multiple of 128 inside a source block); STORED-B (130 docs in two blocks; length of doc 0 and doc 128 in 0..24, six record shapes for the last record of each block): every doc of interest and every sequence of <=3 visits over {0,127,128,129} on a freshly loaded segment (the decompressed block is cached, so a visit depends on earlier ones), also after merge; " +
 			"distinct = (segment, form, visit sequence); non-trivial = visited document has >=1 stored value, sequences: touches >=2 different blocks",
 		Assumptions: commonAssumptions, Budget: qBudget, Run: runC06,
 	})
@@ -239,6 +239,50 @@ func runC06(c *explore.Ctx) {
 		}
 		return !c.Expired()
 	})
+	// COPY-CROSS: block-copy merges of two segments with identical field lists and no deletions whose
+	// sizes make the merged document count cross a multiple of 128 inside a source block
+	{
+		sizes := [][2]int{{100, 100}, {127, 2}, {1, 128}, {130, 130}, {64, 65}, {128, 129}, {255, 3}}
+		for si, sz := range sizes {
+			scope := "COPY-CROSS"
+			if !c.MineIdx(scope, int64(si)) {
+				continue
+			}
+			c.Eval()
+			c.Nontrivial()
+			mk := func(tag string, n int) []model.Doc {
+				b := make([]model.Doc, n)
+				for i := range b {
+					b[i] = model.Doc{gen.IDField(tag, i), {N: "a", St: true, Val: []byte(fmt.Sprintf("%s-stored-%d", tag, i)), Len: 1, Terms: []model.Term{{T: "x", Freq: 1}}}}
+				}
+				return b
+			}
+			b0, b1 := mk("p", sz[0]), mk("q", sz[1])
+			cas := fmt.Sprintf("COPY-CROSS #%d sizes=%v", si, sz)
+			s0, err0 := build(b0, 1025)
+			s1, err1 := build(b1, 1025)
+			if err0 != nil || err1 != nil {
+				c.Violate(scope, int64(si), "C06/copy-cross/build", fmt.Sprint(err0, err1), cas)
+				continue
+			}
+			for _, order := range [][2]int{{0, 1}, {1, 0}} {
+				segs := []segment.Segment{s0, s1}
+				lss := []*model.LSeg{model.Build(b0), model.Build(b1)}
+				mb, _, _, err := merge([]segment.Segment{segs[order[0]], segs[order[1]]}, []*roaring.Bitmap{nil, nil}, 1025)
+				if err != nil {
+					c.Violate(scope, int64(si), sigOf("C06", "copy-cross-merge", "error: "+err.Error()), err.Error(), cas)
+					continue
+				}
+				l, err := loadMem(mb)
+				if err != nil {
+					c.Violate(scope, int64(si), sigOf("C06", "copy-cross-load", "error: "+err.Error()), err.Error(), cas)
+					continue
+				}
+				want, _ := model.Merge([]*model.LSeg{lss[order[0]], lss[order[1]]}, []map[uint64]bool{nil, nil})
+				checkAllDocs(c, scope, int64(si), l, want, "merged-copy-two-segments", cas, false)
+			}
+		}
+	}
 	// STORED-B
 	pad1s := []int{0, 12, 24}
 	if c.Thorough() {
